@@ -190,6 +190,71 @@ def run_symbolic(chk, spec):
 	if got != exp:
 		chk.fail("element i is exactly what Python computes for the i-th operands in written order", f"arith/operand-order/{opname}/{form}", f"{spec!r}: serif {got!r}, python {exp!r}")
 
+def run_table_columnwise(chk, spec):
+	"""arithmetic with a table as left operand is THE SAME operation applied column by column - the operation the column itself performs, typed
+	vector classes included (a date column adds days): every result column equals what the bare column gives with the matching operand"""
+	import warnings
+	n = spec["n"]
+	D0 = date(2020, 1, 30)
+	cols = {"d": [None if spec["none"] and i == 1 else D0 + timedelta(days=i) for i in range(n)], "k": [i + 1 for i in range(n)], "x": [i + 0.5 for i in range(n)], "s": [f"s{i}" for i in range(n)]}
+	use = list(spec["use"])
+	t = Table({c: list(cols[c]) for c in use})
+	opname = spec["opname"]
+	op = BIN_OPS[opname]
+	kind = spec["other"]
+	if kind == "int":
+		other, per = 7, [7] * len(use)
+	elif kind == "intvec":
+		other = Vector([i % 3 for i in range(n)])
+		per = [other] * len(use)
+	elif kind == "intlist":
+		other = [i % 3 for i in range(n)]
+		per = [other] * len(use)
+	else:
+		other = Table({f"o{j}": [(i + j) % 3 + 1 for i in range(n)] for j in range(len(use))})
+		per = list(other.cols())
+	with warnings.catch_warnings():
+		warnings.simplefilter("ignore")
+		o = call(lambda: op(t, other))
+		refs = [call(lambda c=c, p=p: op(t[c], p)) for c, p in zip(use, per)]
+	chk.judged("arith-value", ("table-columnwise", opname, kind, tuple(use), n, spec["none"]))
+	if any(not r.ok for r in refs):
+		if o.ok and all(r.ok for r in refs) is False and kind != "intvec":
+			chk.fail("table arithmetic is the vector operation applied column by column", f"table-arith/accepted-where-column-raises/{opname}/{kind}", f"{spec!r}: columns give {[repr(r) for r in refs]!r}, table gives {short(o.value, 120)}")
+		return
+	if not o.ok:
+		chk.fail("table arithmetic is the vector operation applied column by column", f"table-arith/raises-where-columns-work/{opname}/{kind}/{type(o.exc).__name__}", f"{spec!r}: {o!r}; the columns alone give {[short(list(r.value), 60) for r in refs]!r}")
+		return
+	if not isinstance(o.value, Table) or len(o.value.cols()) != len(use):
+		chk.fail("table arithmetic is the vector operation applied column by column", f"table-arith/shape/{opname}/{kind}", f"{spec!r}: {short(o.value, 160)}")
+		return
+	for c, got, ref in zip(use, o.value.cols(), refs):
+		g, e = list(got._underlying), list(ref.value._underlying)
+		if M.first_diff(g, e):
+			chk.fail("table arithmetic is the vector operation applied column by column", f"table-arith/differs-from-column-operation/{opname}/{kind}/{c}", f"{spec!r}: column {c!r}: table gives {short(g, 120)}, the column alone {short(e, 120)}")
+			return
+
+
+def run_unsized(chk, spec):
+	"""an operand that has no len() (generator, iterator, map object): lengths that differ raise - nothing is truncated; equal lengths either raise or
+	give exactly the element-wise result"""
+	vals = list(spec["values"])
+	m = spec["m"]
+	items = [(i % 3) + 1 for i in range(m)]
+	mk = {"generator": lambda: (x for x in items), "iterator": lambda: iter(items), "map": lambda: map(int, items), "zip-first": lambda: (a for a, _ in zip(items, items))}[spec["form"]]
+	op = BIN_OPS[spec["opname"]]
+	v = Vector(list(vals))
+	o = call(lambda: op(mk(), v) if spec["reflected"] else op(v, mk()))
+	chk.judged("arith-value", ("unsized", spec["opname"], spec["form"], spec["reflected"], len(vals), m))
+	if m != len(vals):
+		if o.ok:
+			chk.fail("lengths that differ raise an error - nothing is truncated, recycled or broadcast", f"arith/length-mismatch-accepted/unsized-{spec['form']}/{'reflected' if spec['reflected'] else 'plain'}", f"{spec!r}: Vector of {len(vals)} with {m} items gave {short(o.value, 120)}")
+		return
+	if o.ok and isinstance(o.value, Vector):
+		exp = [None if a is None else (op(b, a) if spec["reflected"] else op(a, b)) for a, b in zip(vals, items)]
+		if M.first_diff(list(o.value._underlying), exp):
+			chk.fail("element i is exactly what Python computes for the i-th operands in written order", f"arith/element-mismatch/unsized-{spec['form']}", f"{spec!r}: {short(list(o.value._underlying), 120)} vs {short(exp, 120)}")
+
 
 def run_table_arith(chk, spec):
 	"""table (op) scalar / table (op) table equals the vector operation per column"""
@@ -394,7 +459,7 @@ def run_helper(chk, spec):
 			f"Vector({short(vals, 120)}).{name}({sep!r}): serif {short(got, 160)} vs documented {short(exp, 160)}: {d}")
 
 
-RUNNERS = {"symbolic": run_symbolic, "identity": run_identity, "row_arith": run_row_arith, "helper": run_helper, "arith": run_arith, "table_arith": run_table_arith, "method": run_method, "date_days": run_date_days, "recompute": recompute.runner("C05")}
+RUNNERS = {"table_columnwise": run_table_columnwise, "unsized": run_unsized, "symbolic": run_symbolic, "identity": run_identity, "row_arith": run_row_arith, "helper": run_helper, "arith": run_arith, "table_arith": run_table_arith, "method": run_method, "date_days": run_date_days, "recompute": recompute.runner("C05")}
 
 PAIRS = [("int", "int"), ("int", "float"), ("float", "int"), ("bool", "int"), ("int", "complex"), ("float", "float"), ("str", "str"),
 	("str", "int"), ("date", "timedelta"), ("datetime", "timedelta"), ("timedelta", "timedelta"), ("timedelta", "int"), ("list", "list"),
@@ -447,6 +512,16 @@ def run(chk):
 	rng = chk.rng
 	for spec in product_specs(chk):
 		chk.case("arith", spec, "arith-" + spec["form"])
+	for use in (["d"], ["d", "k"], ["k", "d", "x"], ["k", "x"], ["s", "d"]):
+		for other in ("int", "intvec", "intlist", "table"):
+			for opname in ("add", "sub", "mul"):
+				for none in (False, True):
+					chk.case("table_columnwise", {"use": use, "other": other, "opname": opname, "n": 3, "none": none}, "table-columnwise")
+	for opname in ("add", "sub", "mul", "truediv", "floordiv", "mod", "pow"):
+		for form in ("generator", "iterator", "map", "zip-first"):
+			for reflected in (False, True):
+				for n, m in ((4, 3), (4, 9), (3, 0), (0, 2), (3, 3), (1, 2)):
+					chk.case("unsized", {"opname": opname, "form": form, "reflected": reflected, "values": [10, 20, None, 40][:n], "m": m}, "arith-unsized")
 	for opname in BIN_OPS:
 		for form in ("vv", "vs", "sv", "vl", "lv", "tv"):
 			for other in ("sym", "number"):
